@@ -64,8 +64,16 @@ func vpProject(names []string, srcs [][]byte) (*AllProject, []*results.FileStruc
 	}
 	p := CreateAllProject(names, nil, nil)
 	fs := make([]*results.FileStruct, len(names))
+	// EDITED=2: the files on disk (what the workspace analysis saw) are one comment line longer at the top
+	// than the text the editor now holds (an unsaved edit deleted that line): every answer must follow the
+	// buffer, not the saved analysis
+	shifted := vpEditedShift || verifParamOr("EDITED", 0) == 2
 	for i := range names {
-		fs[i] = vpLoad(p, names[i], srcs[i])
+		if shifted {
+			fs[i] = vpLoad(p, names[i], append([]byte("-- a line the user has since deleted\n"), srcs[i]...))
+		} else {
+			fs[i] = vpLoad(p, names[i], srcs[i])
+		}
 	}
 	// the rest of HandleCheck, with the same case distinction
 	p.rebuidCreateTypeMap()
@@ -81,6 +89,14 @@ func vpProject(names []string, srcs [][]byte) (*AllProject, []*results.FileStruc
 	p.rebuidCreateTypeMap()
 	p.checkAllAnnotate()
 	p.checkAllAnnotateEnum()
+	if shifted {
+		for i := range names {
+			p.HandleFileChangeAnalysis(names[i], srcs[i])
+			if c, ok := p.GetCacheFileStruct(names[i]); ok && c != nil {
+				fs[i] = c // (the harnesses build their oracles from the syntax tree of the text the editor holds)
+			}
+		}
+	}
 	if vpOpenAll || verifParamOr("EDITED", 0) == 1 {
 		// after an edit: didChange re-analyses
 		// the text in real-time mode and keeps that analysis in the cache the position-based requests use (didOpen alone does not)
@@ -90,6 +106,8 @@ func vpProject(names []string, srcs [][]byte) (*AllProject, []*results.FileStruc
 	}
 	return p, fs
 }
+
+var vpEditedShift = false // true: as job parameter EDITED=2
 
 var vpOpenAll = false // true: the state after an edit (didChange) has re-analysed every file in real-time mode
 
@@ -612,6 +630,16 @@ func (r *rbT) isColonReceiver(name string) bool {
 // ---------------------------------------------------------------- exported facade (harnesses in package langserver)
 
 // VpProject analyses an in-memory workspace.
+// VpProjectEdited: the workspace analysed from the saved texts, then every file edited (didChange) to its
+// current text without saving.
+func VpProjectEdited(names []string, saved [][]byte, cur [][]byte) *AllProject {
+	p, _ := vpProject(names, saved)
+	for i := range names {
+		p.HandleFileChangeAnalysis(names[i], cur[i])
+	}
+	return p
+}
+
 func VpProject(names []string, srcs [][]byte) *AllProject {
 	p, _ := vpProject(names, srcs)
 	return p
